@@ -172,6 +172,15 @@ def run(ctx):
     ctx.check(heap(fe56)["isotope"] == 56 and heap(fe56)["element"] is Fe, "R2", "the isotope carries its A and its element", "", s_pt)
     ctx.check(I.getattr(Fe, "isotopes") == [54, 56, 57, 58] and [heap(i)["isotope"] for i in I.lib.iterate(I, Fe)] == [54, 56, 57, 58], "R5",
               "isotopes are listed and iterated by increasing A exactly once", f"{I.getattr(Fe, 'isotopes')}", fsite(ctx, "core.Element.__iter__"))
+    # what .isotopes hands out is the caller's to change: the table's own bookkeeping is not reachable through it
+    mine = I.getattr(Fe, "isotopes")
+    if isinstance(mine, list):
+        mine.reverse()
+        del mine[:2]
+    ctx.check(I.getattr(Fe, "isotopes") == [54, 56, 57, 58] and [heap(i)["isotope"] for i in I.lib.iterate(I, Fe)] == [54, 56, 57, 58]
+              and call(T, "isotope", "58-Fe") is sub(Fe, 58), "R5",
+              "reversing and truncating the list returned by .isotopes changes nothing in the table",
+              f"isotopes now {I.getattr(Fe, 'isotopes')}, iteration {[heap(i)['isotope'] for i in I.lib.iterate(I, Fe)]}", fsite(ctx, "core.Element.__iter__"))
     # isotopes created after the isotope list was first looked at are reachable through every route
     Og = I.getattr(T, "Og")
     I.getattr(Og, "isotopes"); list(I.lib.iterate(I, Og))
